@@ -180,42 +180,147 @@ fn addrs(v6: bool) -> Addrs {
     }
 }
 
-fn src_addr(c: &Cell) -> Addr {
-    let a = addrs(c.v6);
-    match (c.src, c.v6) {
-        (SrcC::OnLink, _) => a.onlink,
-        (SrcC::OffLink, _) => a.offlink,
-        (SrcC::Own, _) => a.own,
-        (SrcC::SubnetBcast, false) => v4(192, 168, 1, 255),
-        (SrcC::LimitedBcast, false) => v4(255, 255, 255, 255),
-        (SrcC::Multicast, false) => v4(224, 1, 2, 3),
-        (SrcC::Unspecified, false) => v4(0, 0, 0, 0),
-        (SrcC::Loopback, false) => v4(127, 0, 0, 1),
-        // IPv6 has no broadcast: the broadcast classes map to multicast sources
-        (SrcC::SubnetBcast, true) | (SrcC::LimitedBcast, true) => v6a([0xff02, 0, 0, 0, 0, 0, 0, 1]),
-        (SrcC::Multicast, true) => v6a([0xff05, 0, 0, 0, 0, 0, 0, 0x1234]),
-        (SrcC::Unspecified, true) => v6a([0; 8]),
-        (SrcC::Loopback, true) => v6a([0, 0, 0, 0, 0, 0, 0, 1]),
+/// The instances of the address classes used by one cell.  Half of the cells use the canonical
+/// instance of every class, the others draw each instance from a list that includes the ends of
+/// the class's range and look-alikes from just outside the neighbouring classes, so that a filter
+/// which tests a narrower or wider range than the class is noticed.
+#[derive(Clone, Debug)]
+struct Inst {
+    off_src: Addr,
+    bcast: Addr,
+    mcast_src: Addr,
+    loopback: Addr,
+    other_dst: Addr,
+    joined_group: Addr,
+    unjoined_group: Addr,
+}
+
+fn instances(v6: bool, two_v4_subnets: bool, canonical: bool, rng: &mut Rng) -> Inst {
+    let mut pick = |xs: &[Addr]| if canonical { xs[0] } else { *rng.pick(xs) };
+    if v6 {
+        Inst {
+            off_src: pick(&[
+                v6a([0x2001, 0xdb8, 0, 0, 0, 0, 0, 9]),
+                v6a([0x2000, 0, 0, 0, 0, 0, 0, 1]),
+                v6a([0x3fff, 0xffff, 0xffff, 0xffff, 0xffff, 0xffff, 0xffff, 0xfffe]),
+                v6a([0xfd00, 0, 0, 1, 0, 0, 0, 1]),
+                v6a([0xfc00, 0, 0, 0, 0, 0, 0, 1]),
+                v6a([0xfec0, 0, 0, 0, 0, 0, 0, 1]),
+                v6a([0xfeff, 0xffff, 0, 0, 0, 0, 0, 1]),
+                v6a([0x0100, 0, 0, 0, 0, 0, 0, 1]),
+            ]),
+            bcast: v6a([0xff02, 0, 0, 0, 0, 0, 0, 1]),
+            mcast_src: pick(&[
+                v6a([0xff05, 0, 0, 0, 0, 0, 0, 0x1234]),
+                v6a([0xff02, 0, 0, 0, 0, 0, 0, 1]),
+                v6a([0xff00, 0, 0, 0, 0, 0, 0, 0]),
+                v6a([0xffff; 8]),
+                v6a([0xff0e, 0, 0, 0, 0, 0, 0, 1]),
+                v6a([0xff02, 0, 0, 0, 0, 1, 0xff00, 2]),
+            ]),
+            loopback: v6a([0, 0, 0, 0, 0, 0, 0, 1]),
+            other_dst: pick(&[
+                v6a([0xfd00, 0, 0, 0, 0, 0, 0, 0x77]),
+                v6a([0xfd00, 0, 0, 0, 0, 0, 0, 2]),
+                v6a([0xfd00, 0, 0, 0, 0, 0, 0, 0]),
+                v6a([0xfd00, 0, 0, 0, 0, 0, 0, 0x101]),
+                v6a([0xfd00, 0, 0, 1, 0, 0, 0, 1]),
+                v6a([0xfd00, 0, 0, 0, 0, 0, 1, 1]),
+                v6a([0xfd01, 0, 0, 0, 0, 0, 0, 1]),
+                v6a([0x2001, 0xdb8, 0, 0, 0, 0, 0, 1]),
+                v6a([0xfe80, 0, 0, 0, 0, 0, 0, 1]),
+                v6a([0xfeff, 0, 0, 0, 0, 0, 0, 1]),
+            ]),
+            joined_group: pick(&[v6a([0xff02, 0, 0, 0, 0, 0, 0, 0xfb]), v6a([0xff05, 0, 0, 0, 0, 0, 1, 3]), v6a([0xff0e, 0, 0, 0, 0, 0, 0x1234, 0x5678]), v6a([0xff02, 0, 0, 0, 0, 1, 0xff00, 2])]),
+            unjoined_group: pick(&[
+                v6a([0xff05, 0, 0, 0, 0, 0, 0, 0x1234]),
+                v6a([0xff02, 0, 0, 0, 0, 0, 0, 2]),
+                v6a([0xff02, 0, 0, 0, 0, 0, 0, 0xfc]),
+                v6a([0xff02, 0, 0, 0, 0, 1, 0xff00, 3]),
+                v6a([0xff02, 0, 0, 0, 0, 1, 0xff01, 1]),
+                v6a([0xff02, 0, 0, 0, 0, 0, 0xff00, 1]),
+                v6a([0xff0e, 0, 0, 0, 0, 0, 0, 0xfb]),
+                v6a([0xff05, 0, 0, 0, 0, 0, 0, 1]),
+                v6a([0xff02, 0, 0, 0, 0, 0, 0, 0x16]),
+                v6a([0xffff, 0, 0, 0, 0, 0, 0, 1]),
+            ]),
+        }
+    } else {
+        Inst {
+            off_src: pick(&[
+                v4(10, 9, 9, 9),
+                v4(8, 8, 8, 8),
+                v4(1, 0, 0, 1),
+                v4(126, 255, 255, 254),
+                v4(128, 0, 0, 1),
+                v4(191, 255, 0, 1),
+                v4(192, 168, 2, 1),
+                v4(192, 168, 0, 254),
+                v4(223, 255, 255, 254),
+                v4(169, 254, 1, 1),
+            ]),
+            bcast: if two_v4_subnets { pick(&[v4(192, 168, 1, 255), v4(10, 77, 255, 255)]) } else { v4(192, 168, 1, 255) },
+            mcast_src: pick(&[v4(224, 1, 2, 3), v4(224, 0, 0, 1), v4(224, 0, 0, 0), v4(239, 255, 255, 255), v4(232, 1, 1, 1), v4(224, 0, 0, 251)]),
+            loopback: pick(&[v4(127, 0, 0, 1), v4(127, 0, 0, 2), v4(127, 1, 2, 3), v4(127, 255, 255, 254)]),
+            other_dst: pick(&[
+                v4(192, 168, 1, 77),
+                v4(192, 168, 1, 2),
+                v4(192, 168, 1, 254),
+                v4(192, 168, 1, 3),
+                v4(192, 168, 2, 1),
+                v4(192, 168, 2, 255),
+                v4(192, 169, 1, 1),
+                v4(10, 0, 0, 1),
+                v4(223, 255, 255, 254),
+                v4(1, 1, 1, 1),
+            ]),
+            joined_group: pick(&[v4(224, 0, 0, 251), v4(239, 1, 2, 3), v4(224, 0, 1, 1), v4(232, 7, 7, 7)]),
+            unjoined_group: pick(&[
+                v4(224, 1, 2, 3),
+                v4(224, 0, 0, 2),
+                v4(224, 0, 0, 250),
+                v4(224, 0, 0, 252),
+                v4(224, 0, 0, 22),
+                v4(224, 0, 1, 251),
+                v4(239, 255, 255, 255),
+                v4(239, 0, 0, 1),
+                v4(225, 0, 0, 1),
+            ]),
+        }
     }
 }
 
-fn dst_addr(c: &Cell) -> Addr {
+fn src_addr(c: &Cell, i: &Inst) -> Addr {
+    let a = addrs(c.v6);
+    match (c.src, c.v6) {
+        (SrcC::OnLink, _) => a.onlink,
+        (SrcC::OffLink, _) => i.off_src,
+        (SrcC::Own, _) => a.own,
+        (SrcC::SubnetBcast, false) => i.bcast,
+        (SrcC::LimitedBcast, false) => v4(255, 255, 255, 255),
+        (SrcC::Multicast, _) => i.mcast_src,
+        (SrcC::Unspecified, false) => v4(0, 0, 0, 0),
+        (SrcC::Loopback, _) => i.loopback,
+        // IPv6 has no broadcast: the broadcast classes map to multicast sources
+        (SrcC::SubnetBcast, true) | (SrcC::LimitedBcast, true) => v6a([0xff02, 0, 0, 0, 0, 0, 0, 1]),
+        (SrcC::Unspecified, true) => v6a([0; 8]),
+    }
+}
+
+fn dst_addr(c: &Cell, i: &Inst) -> Addr {
     let a = addrs(c.v6);
     match (c.dst, c.v6) {
         (DstC::Own, _) => a.own,
-        (DstC::OtherUnicast, _) => a.other_dst,
-        (DstC::SubnetBcast, false) => v4(192, 168, 1, 255),
+        (DstC::OtherUnicast, _) => i.other_dst,
+        (DstC::SubnetBcast, false) => i.bcast,
         (DstC::LimitedBcast, false) => v4(255, 255, 255, 255),
         (DstC::AllNodes, false) | (DstC::SolicitedNode, false) => v4(224, 0, 0, 1),
-        (DstC::JoinedGroup, false) => v4(224, 0, 0, 251),
-        (DstC::UnjoinedGroup, false) => v4(224, 1, 2, 3),
-        (DstC::Loopback, false) => v4(127, 0, 0, 1),
+        (DstC::JoinedGroup, _) => i.joined_group,
+        (DstC::UnjoinedGroup, _) => i.unjoined_group,
+        (DstC::Loopback, _) => i.loopback,
         (DstC::Unspecified, false) => v4(0, 0, 0, 0),
         (DstC::SubnetBcast, true) | (DstC::LimitedBcast, true) | (DstC::AllNodes, true) => v6a([0xff02, 0, 0, 0, 0, 0, 0, 1]),
         (DstC::SolicitedNode, true) => v6a([0xff02, 0, 0, 0, 0, 1, 0xff00, 1]),
-        (DstC::JoinedGroup, true) => v6a([0xff02, 0, 0, 0, 0, 0, 0, 0xfb]),
-        (DstC::UnjoinedGroup, true) => v6a([0xff05, 0, 0, 0, 0, 0, 0, 0x1234]),
-        (DstC::Loopback, true) => v6a([0, 0, 0, 0, 0, 0, 0, 1]),
         (DstC::Unspecified, true) => v6a([0; 8]),
     }
 }
@@ -375,6 +480,8 @@ pub fn cell_case(idx: u64, rng: &mut Rng, ctx: &Ctx) -> CaseOut {
             IpCidr::new(IpAddress::Ipv6(Ipv6Address::new(0xfd00, 0, 0, 0, 0, 0, 0, 1)), 64),
         ]
     };
+    let canonical = rng.bool();
+    let inst_ = instances(c.v6, two_v4_subnets, canonical, rng);
     let mut h = Host::new(medium, 1500 + if c.eth { 14 } else { 0 }, hw, rng.next_u64(), &cidrs, 0);
     h.dev.prefill = 0;
     let gw4 = Ipv4Address::new(192, 168, 1, 2);
@@ -382,8 +489,9 @@ pub fn cell_case(idx: u64, rng: &mut Rng, ctx: &Ctx) -> CaseOut {
     let _ = h.iface.routes_mut().add_default_ipv4_route(gw4);
     let _ = h.iface.routes_mut().add_default_ipv6_route(gw6);
     if c.joined {
-        let _ = h.iface.join_multicast_group(Ipv4Address::new(224, 0, 0, 251));
-        let _ = h.iface.join_multicast_group(Ipv6Address::new(0xff02, 0, 0, 0, 0, 0, 0, 0xfb));
+        // (the group of the other IP version is joined as well, as before)
+        let _ = h.iface.join_multicast_group(if c.v6 { IpAddress::Ipv4(Ipv4Address::new(224, 0, 0, 251)) } else { smol(&inst_.joined_group) });
+        let _ = h.iface.join_multicast_group(if c.v6 { smol(&inst_.joined_group) } else { IpAddress::Ipv6(Ipv6Address::new(0xff02, 0, 0, 0, 0, 0, 0, 0xfb)) });
     }
     // ---- sockets
     let mut s = Socks { tcp_listen: None, tcp_est: None, udp: None, icmp: None, raw: None };
@@ -472,8 +580,8 @@ pub fn cell_case(idx: u64, rng: &mut Rng, ctx: &Ctx) -> CaseOut {
         now += 1000;
     }
     // ---- the packet under test
-    let src = src_addr(&c);
-    let dst = dst_addr(&c);
+    let src = src_addr(&c, &inst_);
+    let dst = dst_addr(&c, &inst_);
     let sport = PEER_PORT;
     let plen = rng.urange(1, 40);
     let payload: Vec<u8> = rng.bytes(plen);
@@ -613,6 +721,10 @@ pub fn cell_case(idx: u64, rng: &mut Rng, ctx: &Ctx) -> CaseOut {
     }
     out.class(cls(if !ours { "dropped-or-ignored" } else if delta { "delivered" } else if em.frames > 0 { "answered" } else { "silent" }));
     out.count("cells", 1);
+    out.count("cells_with_non_canonical_class_instances", {
+        let ci = instances(c.v6, false, true, rng);
+        (src != src_addr(&c, &ci) || dst != dst_addr(&c, &ci)) as u64
+    });
     out.count("cells_not_addressed_to_us", (!ours) as u64);
     out.count("cells_delivered", delta as u64);
     out.count("cells_answered", (em.frames > 0) as u64);
@@ -640,7 +752,7 @@ pub fn monitor() -> super::Monitor {
             "'broadcast or multicast destination' is judged at the IP layer",
             "raw sockets are outside the delivery clause of the statement",
         ],
-        floors: &[("pan_cells_other_pan", 50), ("pan_cells_delivered", 20), ("pan_cells_answered", 20), ("cells", 60_000), ("cells_delivered", 500), ("cells_answered", 2000), ("rst_seen", 200), ("icmp_errors_seen", 200)],
+        floors: &[("pan_cells_other_pan", 50), ("pan_cells_delivered", 20), ("pan_cells_answered", 20), ("cells", 60_000), ("cells_with_non_canonical_class_instances", 5_000), ("cells_delivered", 500), ("cells_answered", 2000), ("rst_seen", 200), ("icmp_errors_seen", 200)],
         parts: vec![
             super::Part { name: "grid", cases: |c| if c.thorough() { GRID * 8 } else { GRID }, f: cell_case },
             super::Part { name: "pan", cases: |c| if c.thorough() { 144 * 50 } else { 144 * 4 }, f: pan_case },
